@@ -224,6 +224,52 @@ theorem C11_isScheduled_ops (c : Cfg) (fts0 : List FT) (hft : FT.operations ∈ 
       simp only [isScheduledCol, newEntry]
       rw [hspec, schedOpsSpec_dispatch hc.wf hsp]
 
+/-! ## column names of the composite -/
+
+theorem partNames_length (o : FObs) (ft : FT) (hne : ∀ tc ∈ o.cols, tc.2 ≠ []) :
+    (partNames o ft).length = ((o.cols.filter (·.1 == ft)).flatMap (·.2)).length := by
+  unfold partNames
+  have hl : ∀ tc ∈ o.cols.filter (·.1 == ft), tc.2 ≠ [] := fun tc h => hne tc (List.mem_filter.1 h).1
+  generalize o.cols.filter (·.1 == ft) = l at hl
+  induction l with
+  | nil => rfl
+  | cons a t ih =>
+    simp only [List.flatMap_cons, List.length_append]
+    rw [ih (fun tc h => hl tc (by simp [h]))]
+    congr 1
+    have ha := hl a (by simp)
+    by_cases h1 : a.2.length > 1
+    · simp [h1]
+    · simp only [h1, ↓reduceIte, List.length_cons, List.length_nil]
+      cases hc : a.2 with
+      | nil => exact absurd hc ha
+      | cons c cs => rw [hc] at h1; simp at h1; simp [h1]
+
+theorem length_flatMap_congr {α β γ} (f : α → List β) (g : α → List γ) : ∀ (l : List α),
+    (∀ a ∈ l, (f a).length = (g a).length) → (l.flatMap f).length = (l.flatMap g).length
+  | [], _ => rfl
+  | a :: t, h => by
+    simp only [List.flatMap_cons, List.length_append]
+    rw [h a (by simp), length_flatMap_congr f g t (fun x hx => h x (by simp [hx]))]
+
+/-- **C11 (column names).** The composite has, for every feature type, exactly as many column names as columns, in the
+same feature-type order: `Name` for a one-column component, `Name_0 … Name_{k-1}` for a `k`-column component (a nested
+composite). -/
+theorem C11_composite_names (heap : List FObs) (parts : List Nat)
+    (hne : ∀ i ∈ parts, ∀ o, heap[i]? = some o → ∀ tc ∈ o.cols, tc.2 ≠ []) :
+    (compositeNames heap parts).map (fun x => (x.1, x.2.length)) =
+      (compositeCols heap parts).map (fun x => (x.1, x.2.length)) := by
+  unfold compositeNames compositeCols
+  simp only [List.map_map]
+  apply List.map_congr_left
+  intro ft _
+  simp only [Function.comp_apply]
+  congr 1
+  apply length_flatMap_congr
+  intro o ho
+  obtain ⟨i, hi, hio⟩ := List.mem_filterMap.1 ho
+  exact partNames_length o ft (hne i hi o hio)
+
 /-- **C11 (constructible).** Every feature observer can be constructed in every state of every instance, for
 every list of supported feature types (and the default `None`). -/
 theorem C11_constructible (w : FWorld) (kind : FKind) (fts : Option (List FT)) (hk : kind.isFeature = true)
